@@ -1222,6 +1222,8 @@ def derived_observable(func, data, array_mode=False, **kwargs):
 
     # Workaround for matrix operations containing non Obs data
     if not all(isinstance(x, Obs) for x in raveled_data):
+        data = np.array(data, order='C')
+        raveled_data = data.ravel()
         for i in range(len(raveled_data)):
             if isinstance(raveled_data[i], (int, float)):
                 raveled_data[i] = cov_Obs(raveled_data[i], 0.0, "###dummy_covobs###")
